@@ -124,20 +124,26 @@ def _main(a, prop, seed, mod, tier, work, t_start, compile_s) -> int:
     n_echo = int(tier.get("n_echo", 8))
     n_echo_b = int(tier.get("n_echo_b", n_echo))
     lanes = []
+    n_b_lanes = max(1, int(tier.get("echo_b_lanes", 1)))  # echoB_j re-runs the first seeds of lane j under lane j+1's hash seed
     for k in range(N_LANES):
         seeds = [base + i for i in range(runs) if i % N_LANES == k]
         if not seeds:
             continue
+        ne_k = max(n_echo if k == 0 else 0, n_echo_b if k < n_b_lanes else 0)
         cfg = {"lane": k, "hashseed": hashseeds[k], "seeds": seeds, "gen": tier.get("gen", {}),
                "soft_deadline_s": tier.get("soft_deadline_s", 600), "hard_timeout_s": tier.get("hard_timeout_s", 1800),
-               "n_echo": max(n_echo, n_echo_b) if k == 0 else 0}
+               "n_echo": ne_k}
         lanes.append((f"lane{k}", cfg))
-    for name, hs, ne in (("echoA", hashseeds[0], n_echo), ("echoB", hashseeds[1 % N_LANES], n_echo_b)):
-        echo_seeds = lanes[0][1]["seeds"][:ne]
+    n_main = len(lanes)
+    echo_defs = [("echoA", 0, hashseeds[0], n_echo)]
+    for j in range(min(n_b_lanes, n_main)):
+        echo_defs.append((f"echoB{j}" if j else "echoB", j, hashseeds[(j + 1) % N_LANES], n_echo_b))
+    for name, src, hs, ne in echo_defs:
+        echo_seeds = lanes[src][1]["seeds"][:ne]
         lanes.append((name, {"lane": name, "hashseed": hs, "seeds": echo_seeds, "gen": tier.get("gen", {}),
                              "soft_deadline_s": 1e9, "hard_timeout_s": tier.get("hard_timeout_s", 1800),
-                             "echo_only": True}))
-    log(f"[{prop}] tier={a.tier} VERIF_SEED={seed} runs={runs} lanes={len(lanes) - 2}+2echo jobs={a.jobs} "
+                             "echo_only": True, "_src": src}))
+    log(f"[{prop}] tier={a.tier} VERIF_SEED={seed} runs={runs} lanes={n_main}+{len(lanes) - n_main}echo jobs={a.jobs} "
         f"recompiled /repo/data_algebra in {compile_s:.1f}s")
     # ---- run lanes, at most a.jobs at a time
     pending = list(lanes)
@@ -147,7 +153,7 @@ def _main(a, prop, seed, mod, tier, work, t_start, compile_s) -> int:
     t0 = time.monotonic()
     failed = None
     while pending or running:
-        while pending and len(running) < a.jobs + 2:
+        while pending and len(running) < a.jobs + (len(lanes) - n_main):
             name, cfg = pending.pop(0)
             cp = os.path.join(work, name + ".cfg.json")
             op = os.path.join(work, name + ".jsonl")
@@ -230,19 +236,28 @@ def _main(a, prop, seed, mod, tier, work, t_start, compile_s) -> int:
             log(f"HARNESS-ERROR: nondeterminism: seed {d['seed']} replayed differently in a fresh interpreter "
                 f"under the same hash seed: {m['scen']}/{m['log']}/{m['verdict']} vs {d['scen']}/{d['log']}/{d['verdict']}")
             return 2
-    for d in records["echoB"]:
-        m = main0.get(d["seed"])
-        if m is None:
+    cross_pairs = {}
+    n_cross_checked = 0
+    for name, cfg in lanes:
+        if not name.startswith("echoB"):
             continue
-        if m["scen"] != d["scen"]:
-            log(f"HARNESS-ERROR: generator depends on PYTHONHASHSEED: seed {d['seed']}: {m['scen']} vs {d['scen']}")
-            return 2
-        if getattr(mod, "LOG_HASHSEED_INDEPENDENT", False) and (m["log"], m["verdict"]) != (d["log"], d["verdict"]):
-            if getattr(mod, "CROSS_HASHSEED_IS_VIOLATION", False) and m["verdict"] == "ok" and d["verdict"] == "ok":
-                cross_violations.append(d["seed"])
+        src = cfg["_src"]
+        mainj = {d["seed"]: d for d in records[f"lane{src}"]}
+        for d in records[name]:
+            m = mainj.get(d["seed"])
+            if m is None:
                 continue
-            log(f"HARNESS-ERROR: event log depends on PYTHONHASHSEED: seed {d['seed']}")
-            return 2
+            n_cross_checked += 1
+            if m["scen"] != d["scen"]:
+                log(f"HARNESS-ERROR: generator depends on PYTHONHASHSEED: seed {d['seed']}: {m['scen']} vs {d['scen']}")
+                return 2
+            if getattr(mod, "LOG_HASHSEED_INDEPENDENT", False) and (m["log"], m["verdict"]) != (d["log"], d["verdict"]):
+                if getattr(mod, "CROSS_HASHSEED_IS_VIOLATION", False) and m["verdict"] == "ok" and d["verdict"] == "ok":
+                    cross_violations.append(d["seed"])
+                    cross_pairs[d["seed"]] = [hashseeds[src], cfg["hashseed"]]
+                    continue
+                log(f"HARNESS-ERROR: event log depends on PYTHONHASHSEED: seed {d['seed']}")
+                return 2
     # ---- aggregate reach
     agg = {"runs": 0, "ok": 0, "violations": 0, "nontrivial": 0, "steps": 0}
     faults, probes = {}, {}
@@ -304,19 +319,20 @@ def _main(a, prop, seed, mod, tier, work, t_start, compile_s) -> int:
     if cross_violations:
         sd = cross_violations[0]
         scn = mod.generate(sd, tier.get("gen", {}))
-        scn["hashseed"] = hashseeds[0]
+        pair = cross_pairs.get(sd, [hashseeds[0], hashseeds[1 % N_LANES]])
+        scn["hashseed"] = pair[0]
         os.makedirs(os.path.join(REPLAYS, prop), exist_ok=True)
         path = os.path.join(REPLAYS, prop, f"cross-hashseed-{sd}.json")
         sig = [prop, "cross-process", "result-depends-on-PYTHONHASHSEED"]
         with open(path, "w") as f:
             json.dump({"property": prop, "signature": sig, "scenario": scn,
-                       "cross_hashseed": [hashseeds[0], hashseeds[1 % N_LANES]]}, f, indent=1, sort_keys=True)
+                       "cross_hashseed": pair}, f, indent=1, sort_keys=True)
         if "|".join(sig) in open_known:
             known_matched["|".join(sig)] = len(cross_violations)
         else:
             out_lines.append(f"VIOLATION property={prop} replay={path}")
             log(f"  signature: {'|'.join(sig)}\n  seeds: {cross_violations[:8]} (per-operation result digests differ "
-                f"between PYTHONHASHSEED={hashseeds[0]} and {hashseeds[1 % N_LANES]})")
+                f"between PYTHONHASHSEED={pair[0]} and {pair[1]})")
             new_sigs.append("|".join(sig))
             by_sig["|".join(sig)] = []
             exit_code = 1
@@ -372,7 +388,7 @@ def _main(a, prop, seed, mod, tier, work, t_start, compile_s) -> int:
                 "distinct_states": len(states),
                 "distinct_op_trigrams": len(trigrams),
                 "determinism_sample": {"seeds_replayed_twice_same_hashseed": det_checked,
-                                       "seeds_regenerated_other_hashseed": len(records["echoB"])},
+                                       "seeds_regenerated_other_hashseed": n_cross_checked},
                 "components": mod.COMPONENTS,
                 "known_findings_matched": known_matched,
                 "violating_runs": agg["violations"],
